@@ -1034,6 +1034,7 @@ type undoRec struct {
 type specState struct {
 	log    []undoRec
 	parent *specState
+	fresh  map[*Value]bool // cells allocated inside this speculation (merge.go)
 }
 
 type diamond struct {
@@ -1095,6 +1096,9 @@ func (x *Exec) visitIf(fr *frame, instr *ssa.If) continuation {
 				if x.ifConvert(fr, instr, d, cv) {
 					return kJump
 				}
+			}
+			if x.eng.mergeFns[fr.fn.String()] && x.mergeReturns(fr, instr, cv) {
+				return kReturn
 			}
 		}
 		taken = x.branch(cv)
